@@ -13,7 +13,7 @@ def obligations(tier):
     T = 300 if q else 1500
     obs = [
         ch("detect_short", "harness.C20_detect", timeout=T, functions=F, bounds="all strings of length 0-3 over {0 1 9 LF CR { } - > space : ,}"),
-        ch("detect_prefixed", "harness.C20_detect", timeout=T, functions=F, bounds="10 format markers followed by 0-2 alphabet characters"),
+        ch("detect_prefixed", "harness.C20_detect", timeout=T, functions=F, bounds="13 markers (format markers, '<', LF'<b>', blanks) followed by 0-2 alphabet characters"),
         ch("detect_suffixed1" if q else "detect_suffixed", "harness.C20_detect", timeout=T, functions=F,
            bounds=("0-1" if q else "0-2") + " alphabet characters followed by one of 10 format markers"),
         ch("detect_truncated", "harness.C20_detect", timeout=T, functions=F, exhaustive=True, bounds="a valid document of each of the 6 formats cut at every index 0..80"),
@@ -22,6 +22,9 @@ def obligations(tier):
         ch("own_output_markup", "harness.C20_detect", timeout=T, functions=F, exhaustive=True,
            bounds="16 SAMI/DFXP documents written and read back concretely at import; detection of each under CrossHair"),
     ]
+    obs.append(ch("own_output_float_times", "harness.C20_detect", timeout=T, functions=F + ("SRTWriter/WebVTTWriter/MicroDVDWriter/SCCWriter.write",), exhaustive=True,
+                  bounds="4 pure-Python writers x 3 caption sets with float-valued times (as the SCC reader produces)"))
+    obs.append(ch("detect_markers2", "harness.C20_detect", timeout=T, functions=F, exhaustive=True, bounds="every ordered pair of the 13 markers"))
     if not q:
         obs.append(ch("detect_marked", "harness.C20_detect", timeout=T, functions=F, bounds="marker + 0-1 characters + marker (100 marker pairs)"))
         obs.append(ch("detect_short5", "harness.C20_detect", timeout=T, functions=F, bounds="all strings of length 4-5 over the alphabet"))
